@@ -96,6 +96,8 @@ def main():
             acc.add("informational: one of the two builds was refused, nothing to compare", cls + "|not comparable", 0.0, 0, sig="%s: %s / %s: %s %s" % (A.get("tag"), ga["outcome"], B.get("tag"), gb["outcome"], (ga.get("exc_msg") or gb.get("exc_msg") or "")[:120]))
         elif ga["outcome"] != gb["outcome"]:
             acc.add("both executions have the same outcome", cls, 1.0, 0, sig="%s: %s / %s: %s %s" % (A.get("tag"), ga["outcome"], B.get("tag"), gb["outcome"], (ga.get("exc_msg") or gb.get("exc_msg") or "")[:120]))
+        elif a.get("refusal_not_comparable"):
+            acc.add("informational: both builds were refused, nothing to compare", cls + "|not comparable", 0.0, 0, where={"a": A.get("tag"), "b": B.get("tag"), "exc": (ga.get("exc_msg") or "")[:100]})
         else:
             inconclusive.append("both component cases refused: %s" % (ga.get("exc_msg") or "")[:100])
         out["records"] = acc.records()
